@@ -115,6 +115,43 @@ class _np_quiet:
         np.seterr(**self.old)
 
 
+def long_path_task(task):
+    """Necessary-condition probe on long single paths: with every continuous draw answered by the same constant u
+    (and slot 0), a reservoir of size k must keep accepting arrivals: under the uniform law the probability that none of
+    W consecutive arrivals n0..n0+W is accepted is about (n0/(n0+W))^k, i.e. astronomically small for the windows used.
+    A reservoir that stops accepting (e.g. an internal weight that underflows) is caught here; this is beyond the reach
+    of the small exhaustive (k,n) configurations."""
+    _, k, n, u, window = task
+    from ixai.storage import UniformReservoirStorage
+
+    def driver(run):
+        s = UniformReservoirStorage(size=k, store_targets=True)
+        last_change = k
+        prev = None
+        for t in range(1, n + 1):
+            s.update({'id': t}, t)
+            if t > k:
+                xs = s.get_data()[0]
+                cur = xs[0]['id'], xs[-1]['id'], xs[(t * 7) % k]['id']
+                if t % 50 == 0 or t == n:
+                    ids = [x['id'] for x in xs]
+                    if ids != prev:
+                        last_change = t if prev is not None else last_change
+                        prev = ids
+                    if len(ids) != k or len(set(ids)) != k or max(ids) > t:
+                        raise Violation("C08/long-path-not-a-k-subset", f"UniformReservoirStorage(size={k}) after {t} "
+                                        f"observations on the constant-draw path u={u}: {len(ids)} rows, {len(set(ids))} distinct", {})
+                    if t - last_change > window:
+                        raise Violation("C08/stopped-accepting", f"UniformReservoirStorage(size={k}) on the path where every "
+                                        f"continuous draw is {u}: no arrival between {last_change} and {t} entered the reservoir "
+                                        f"(newest stored arrival {max(ids)}); under the uniform law each arrival n is kept "
+                                        f"with probability k/n, the chance of such a gap is about {(last_change / t) ** k:.1e}", {})
+        return max(x['id'] for x in s.get_data()[0])
+    with _np_quiet():
+        run, res, viol = choice.execute(driver, (), lambda i: ((u,), None), False)
+    return dict(kind='long', k=k, n=n, u=u, newest=res, violations=[(viol.key, viol.what)] if viol else [])
+
+
 def plan(tier):
     if tier == 'thorough':
         return [(1, 2, 16), (1, 3, 9), (2, 3, 12), (2, 4, 7), (1, 4, 5), (3, 4, 10), (3, 5, 5), (2, 5, 4)]
@@ -139,6 +176,16 @@ def main(rep):
             with _np_quiet():
                 roots = choice.frontier(driver_for(kind, k, n), 2, grid_policy(base))
             tasks += [(kind, k, n, base, r) for r in roots]
+    long_tasks = [('long', k, n, u, w) for (k, n, w) in ((1000, 6000 if rep.tier != 'thorough' else 20000, 1500), (400, 5000, 1500),
+                                                        (100, 4000, 2500))
+                  for u in (0.5, 0.05, 0.95, 0.3)]
+    long_res = choice.pmap(long_path_task, long_tasks, chunksize=1)
+    for r in long_res:
+        rep.add(evaluations=1, transitions=r['n'])
+        for key, what in r['violations']:
+            rep.violation(key, what, {'k': r['k'], 'n': r['n'], 'base': 0, 'long': [r['k'], r['n'], r['u']]})
+    rep.sample({'long_paths': [{'k': r['k'], 'n': r['n'], 'constant_draw': r['u'], 'newest_stored_arrival': r['newest']}
+                               for r in long_res[:4]]}, limit=12)
     raw = choice.pmap(run_task, tasks, chunksize=4)
     merged = {}
     for r in raw:
